@@ -139,6 +139,8 @@ type KeySite struct {
 	// (== Call when Fn == Top).
 	TopCall ssa.CallInstruction
 	Depth   int
+	// Chain: the call instructions from Top down to the CacheDB operation.
+	Chain []ssa.CallInstruction
 }
 
 type ksEngine struct {
@@ -219,7 +221,7 @@ func (e *ksEngine) summary(fn *ssa.Function, depth int) []KeySite {
 				if op, isOp := e.ops[callee]; isOp {
 					args := ci.Common().Args
 					if len(args) >= 2 {
-						out = append(out, KeySite{Op: op, Shape: e.shape(args[1], 0), Fn: f, Call: ci, TopCall: ci})
+						out = append(out, KeySite{Op: op, Shape: e.shape(args[1], 0), Fn: f, Call: ci, TopCall: ci, Chain: []ssa.CallInstruction{ci}})
 					}
 					continue
 				}
@@ -239,6 +241,7 @@ func (e *ksEngine) summary(fn *ssa.Function, depth int) []KeySite {
 					ns := s
 					ns.Shape = e.subst(s.Shape, args)
 					ns.TopCall = ci
+					ns.Chain = append([]ssa.CallInstruction{ci}, s.Chain...)
 					ns.Depth = s.Depth + 1
 					out = append(out, ns)
 				}
